@@ -1431,7 +1431,9 @@ func VH_C12_pending_connection_survives_another_handles_close() {
 	verifAssert("C12.pending.acquire", err1 == nil && err2 == nil)
 	id := verifDialTCP(h1.Addr())
 	verifAssert("C12.pending.dial", id >= 0)
-	verifPause()
+	for i := 0; i < verifRepeat(40); i++ {
+		verifPause() // (natively: give the shared accept loop time to take the connection, also on a loaded machine)
+	}
 	verifQuiesce() // the shared accept loop holds the connection now
 	verifAssert("C12.pending.close-ok", h1.Close() == nil)
 	r := verifAcceptAsync(h2)
